@@ -95,9 +95,12 @@ func (c *c07Case) Run(ctx *core.Ctx) {
 			layName = "a.vuego"
 		}
 		if lay != "none" {
-			if c.PageSrc == "fm" {
+			switch c.PageSrc {
+			case "fm":
 				pfm = "---\nlayout: " + layName + "\n---\n"
-			} else {
+			case "config": // the site's config names the default layout of pages
+				files["theme.yml"] = "layout: " + layName + "\n"
+			default:
 				fill["layout"] = layName
 			}
 		}
@@ -134,7 +137,7 @@ func (c *c07Case) Run(ctx *core.Ctx) {
 		idOf := map[string]string{page: "page", "layouts/a.vuego": "la", "layouts/b.vuego": "lb", "layouts/base.vuego": "lbase", "pages/a.vuego": "twin", baseTwin: "btwin"}
 		cur := page
 		curLay := layoutOf(page)
-		if c.PageSrc == "fill" && lay != "none" {
+		if (c.PageSrc == "fill" || c.PageSrc == "config") && lay != "none" {
 			curLay = layName
 		}
 		var chain []string
@@ -189,10 +192,15 @@ func (c *c07Case) Run(ctx *core.Ctx) {
 				return fmt.Sprint(i)
 			case c.Names == "bool" && i == 1:
 				return "true"
+			case c.Names == "implicit" && i == 1:
+				return "base" // the page names no layout: the first link is the default one
 			}
 			return fmt.Sprintf("l%d", i)
 		}
 		files[page] = "---\nlayout: " + lname(1) + "\n---\n" + `<i id="page">P</i>`
+		if c.Names == "implicit" && c.Len > 1 {
+			files[page] = `<i id="page">P</i>`
+		}
 		for i := 1; i < c.Len; i++ {
 			next := lname(i + 1)
 			if i == c.Len-1 {
@@ -234,6 +242,9 @@ func (c *c07Case) Run(ctx *core.Ctx) {
 			want = append(want, "page")
 		}
 		trig = fmt.Sprintf("len=%d/cycle=%v", c.Len, c.Cycle)
+		if c.Names == "implicit" {
+			trig += "/default-base-first"
+		}
 		if c.Twice {
 			trig += "/content-twice"
 		}
@@ -390,7 +401,7 @@ func init() {
 		ID:        "C07",
 		Level:     "exploration",
 		CPUBudget: 20,
-		Rule: "all layout graphs over {page (root or pages/), layouts/a, layouts/b, layouts/base (absent or present), pages/a (relative twin), a base.vuego next to the page} where every file's layout key ranges over {none, a, b, base, self, missing} and the page's is given by front-matter or Fill, on engines built with NewFS(fs), New(WithFS(fs)) and NewFS(decoy, WithFS(fs)) (decoy differing in the presence of layouts/base.vuego); straight chains and cycles of chosen lengths incl. 98..101, cycles whose layouts use the content twice (the content doubles on every lap), the default layout itself rendered as a page, also with layouts named by numbers and booleans (YAML types the front-matter value); every subset of {page fm, a fm, b fm, Fill} defining key k; every chain of 1..3 layouts where each link uses `content` in one of 7 ways (wraps it, passes it bare, hides it behind a false / true v-if, ignores it, uses it twice, prints it escaped) x page body {one element, nothing, two elements}. " +
+		Rule: "all layout graphs over {page (root or pages/), layouts/a, layouts/b, layouts/base (absent or present), pages/a (relative twin), a base.vuego next to the page} where every file's layout key ranges over {none, a, b, base, self, missing} and the page's is given by front-matter or Fill, on engines built with NewFS(fs), New(WithFS(fs)) and NewFS(decoy, WithFS(fs)) (decoy differing in the presence of layouts/base.vuego); straight chains and cycles of chosen lengths incl. 98..101 (entered through a named layout and through the default layouts/base.vuego), cycles whose layouts use the content twice (the content doubles on every lap), the default layout itself rendered as a page, also with layouts named by numbers and booleans (YAML types the front-matter value); every subset of {page fm, a fm, b fm, Fill} defining key k; every chain of 1..3 layouts where each link uses `content` in one of 7 ways (wraps it, passes it bare, hides it behind a false / true v-if, ignores it, uses it twice, prints it escaped) x page body {one element, nothing, two elements}. " +
 			"oracle: reference resolver (relative-then-layouts/, default rule, limit 100) gives the nesting order with each marker once, or error with nothing written. non-trivial = all",
 		Bounds:      map[string]string{"quick": "all graphs over <=5 files; chains 1,2,3,5,98,99,100,101,150; cycles 1,2,3,7", "thorough": "same plus chains up to 300"},
 		Assumptions: []string{"a chain of exactly 100 links is accepted either way"},
@@ -402,8 +413,8 @@ func init() {
 					if pl == "twin" && dir == "" {
 						continue
 					}
-					for _, src := range []string{"fm", "fill"} {
-						if pl == "none" && src == "fill" {
+					for _, src := range []string{"fm", "fill", "config"} {
+						if pl == "none" && src != "fm" {
 							continue
 						}
 						for _, al := range lays {
@@ -434,6 +445,9 @@ func init() {
 			}
 			for _, n := range lens {
 				emit(&c07Case{Part: "chain", Len: n})
+				if n > 1 {
+					emit(&c07Case{Part: "chain", Len: n, Names: "implicit"})
+				}
 			}
 			for _, n := range []int{1, 2, 3, 7} {
 				emit(&c07Case{Part: "chain", Len: n, Cycle: true})
